@@ -21,10 +21,12 @@ package config
 
 // Package initialisation establishes the documented defaults.
 //@ func init
+//@   modifies *
 //@   ensures defaults: defaultsHold()
 
 //@ func (*Storage).Valid
 //@   requires nn:       s != nil
+//@   modifies Storage.MaxDirCount
 //@   ensures  dbpath:   old(s.DbPath) == "" ==> result == fs_db.ErrEmptyDbPath
 //@   ensures  roots:    old(s.DbPath) != "" && len(old(s.RootDirs)) == 0 ==> result == fs_db.ErrEmptyRootDirs
 //@   ensures  ok:       old(s.DbPath) != "" && len(old(s.RootDirs)) != 0 ==> result == nil
@@ -81,6 +83,7 @@ package config
 
 //@ func ParseConfig
 //@   requires defaults:  defaultsHold()
+//@   modifies Config.*, Storage.*, WPool.*, mem[string]
 //@   ensures  status:    result1 == nil <==> ((confFile != "" ==> openOk(confFile) && yamlOk(confFile)) && envAllOk())
 //@   ensures  zero:      result1 != nil ==> result0.Port == 0 && result0.Storage.DbPath == "" && result0.Storage.MaxDirCount == 0 &&
 //@                          len(result0.Storage.RootDirs) == 0 && result0.Storage.GCPeriod == 0 && result0.WPool.NumWorkers == 0 && result0.WPool.SendDuration == 0
